@@ -1852,6 +1852,10 @@ func (t *tScreen) collectEventsFromInput(buf *bytes.Buffer, expire bool) []Event
 					res = append(res, NewEventKey(KeyEsc, 0, mod))
 					t.escaped = false
 				} else {
+					if t.escaped {
+						// the ESC before this one was a key of its own
+						res = append(res, NewEventKey(KeyEsc, 0, ModNone))
+					}
 					t.escaped = true
 				}
 				_, _ = buf.ReadByte()
